@@ -3,6 +3,7 @@ package rp
 import (
 	"context"
 	"encoding/json"
+	"errors"
 	"fmt"
 	"net/http"
 	"sync"
@@ -253,6 +254,11 @@ func (k *jsonWebKeySet) UnmarshalJSON(data []byte) (err error) {
 	err = json.Unmarshal(data, &raw)
 	if err != nil {
 		return err
+	}
+	if raw.Keys == nil {
+		// RFC 7517, section 5: the "keys" member MUST be present. Documents like null or {} are not
+		// a (possibly empty) key set and must not replace the cached keys.
+		return errors.New("oidc: JWKS document has no \"keys\" member")
 	}
 	for _, key := range raw.Keys {
 		webKey := new(jose.JSONWebKey)
